@@ -65,16 +65,18 @@ LT == <<"<">>
 HS == <<"<", "<", "<">>
 HasRF(toks) == \E i \in 1..Len(toks) : IsRF(toks[i], LT) \/ IsRF(toks[i], HS)
 RemoveIdx(toks, i) == SubSeq(toks, 1, i - 1) \o SubSeq(toks, i + 1, Len(toks))
-\* one `if let Some(idx) = position(op)` block
-TakeOp(s, op) ==
-  IF \E i \in 1..Len(s.toks) : IsRF(s.toks[i], op)
-  THEN LET i  == CHOOSE k \in 1..Len(s.toks) : IsRF(s.toks[k], op) /\ \A j \in 1..(k - 1) : ~IsRF(s.toks[j], op)
-           t1 == RemoveIdx(s.toks, i)
-       IN IF Len(t1) >= i THEN [toks |-> RemoveIdx(t1, i), typ |-> op, val |-> t1[i].text]
-          ELSE [toks |-> t1, typ |-> op, val |-> s.val]
-  ELSE s
+\* the repaired loop: the leftmost input redirection of either spelling is taken in every round, so the last one on the line
+\* wins (the pinned code took the leftmost `<` and then the leftmost `<<<` in every round: `cmd <<< w < f` read w)
 RECURSIVE RFLoop(_)
-RFLoop(s) == IF HasRF(s.toks) THEN RFLoop(TakeOp(TakeOp(s, LT), HS)) ELSE s
+RFLoop(s) ==
+  IF HasRF(s.toks)
+  THEN LET i  == CHOOSE k \in 1..Len(s.toks) : (IsRF(s.toks[k], LT) \/ IsRF(s.toks[k], HS))
+                                                /\ \A j \in 1..(k - 1) : ~(IsRF(s.toks[j], LT) \/ IsRF(s.toks[j], HS))
+           op == s.toks[i].text
+           t1 == RemoveIdx(s.toks, i)
+       IN RFLoop(IF Len(t1) >= i THEN [toks |-> RemoveIdx(t1, i), typ |-> op, val |-> t1[i].text]
+                 ELSE [toks |-> t1, typ |-> op, val |-> s.val])
+  ELSE s
 
 FromTokens(toks) ==
   LET s == RFLoop([toks |-> toks, typ |-> <<>>, val |-> <<>>])
